@@ -207,11 +207,10 @@ Definition repr_dot_row (names : list oname) : option (list str) :=
   let idxs := shown_indices n in
   let disp := map (fun i => nth i names None) idxs in
   let sans := map (fun i => nth i hs []) idxs in
-  let real (nm : oname) := match nm with Some t => negb (str_eqb t dots) | None => true end in
-  let any_display := existsb (fun nm => match nm with Some ((_ :: _) as t) => negb (str_eqb t dots)
-                                               | _ => false end) disp in
-  let any_struct := existsb (fun p => real (fst p) && structural_change (fst p) (snd p))
-                            (combine disp sans) in
+  (* since /repo 8b99cab the hidden-columns cell is a private marker compared by identity: a column
+     NAMED "..." is a name like any other *)
+  let any_display := existsb (fun nm => match nm with Some (_ :: _) => true | _ => false end) disp in
+  let any_struct := existsb (fun p => structural_change (fst p) (snd p)) (combine disp sans) in
   if any_struct || negb any_display then
     let cells := map (fun x => "."%char :: x) sans in
     Some (if 10 <? n then firstn 5 cells ++ [dots] ++ skipn 5 cells else cells)
